@@ -1,4 +1,307 @@
 import FqModel.Proto
-/-! driver for C17 (stub — replaced by the property's own driver) -/
-open FqModel.Proto
-def main : IO Unit := run (fun _ _ => "BADOP driver-stub")
+import FqModel.Bits
+import FqModel.Cli
+/-! driver for C17 (stateful: the first case line is the header with fq's own option table and exit codes)
+
+  `hdr codes=<args>,<io>,<compile>,<decode>,<expr> defaults=<n> opts=<E>;<E>;… otypes=<hexkey>:<type>,…` TAB (empty)
+        E = `<name>|<short|~>|<long|~>|<alias,alias|~>|<kinds>`; strings are hex of their UTF-8, kinds ⊆ "bsaop?"
+        (the entries of `_opt_cli_opts | to_entries` in that order, the five `_exit_code_*`)
+  `parse <argv>` TAB `<P>`
+        <argv> = `.` (empty) or hex strings joined by `,` (`-` = empty string; a trailing `*` marks an intended input file)
+        <P> = `ok rest=<list> parsed=<null | name=V;name=V…>` | `err:<enum>:<hex arg>`; V = `T` | `S:<hex>` | `A:<list>` |
+              `P:<hex>+<hex>,…` | `O:<hexk>=<hexv>,…` (keys sorted)      — what the real `_args_parse` returned
+  `meta <kind> <argvA> <argvB>` TAB `<PA> | <PB>`
+        a theorem statement evaluated on the implementation: kind `same` (combined short flags, `--k=v` vs `--k v`, permuted
+        boolean flags): PA = PB;  kind `dd:<n>`: argvA = argvB ++ `--` :: post with |post| = n: PA.parsed = PB.parsed and
+        PA.rest = PB.rest ++ post
+  `run argv=<argv> stdin=<fk> world=<hex>:<fk>:<pc>:<cc>:<json 0|1>:<fmt>,…` TAB `all=<O> singles=<O>;<O>…|.`
+        <O> = `<exit>/<len>:<polyhash of stdout>/<errs|->`, errs = `io:<hexname>`, `dec:<hexname>`, `expr`, `fatal`, `other` joined by `,`
+        singles = the same command with only the i-th marked input file kept
+-/
+open FqModel FqModel.Cli FqModel.Proto
+
+/-! ### codecs -/
+
+def strOfHex (s : String) : Option Str := do
+  let bs ← bytesOfHex s
+  let str ← String.fromUTF8? (ByteArray.mk bs.toArray)
+  pure str.toList
+
+def hexOfStr (s : Str) : String :=
+  let bs := (String.ofList s).toUTF8.toList
+  if bs.isEmpty then "-" else hexOfBytes bs
+
+/-- `.` = empty list; returns strings and the indices marked with `*` -/
+def parseArgv (s : String) : Option (List Str × List Bool) :=
+  if s == "." then some ([], []) else do
+    let items := s.splitOn ","
+    let xs ← items.mapM (fun it =>
+      let marked := it.endsWith "*"
+      let body := if marked then (it.dropEnd 1).toString else it
+      (strOfHex body).map (fun x => (x, marked)))
+    pure (xs.map (·.1), xs.map (·.2))
+
+def showList (xs : List Str) : String := if xs.isEmpty then "." else ",".intercalate (xs.map hexOfStr)
+
+def showPV : PV → String
+  | .flag => "T"
+  | .str s => "S:" ++ hexOfStr s
+  | .arr xs => "A:" ++ showList xs
+  | .pairs xs => "P:" ++ ",".intercalate (xs.map (fun (a, b) => hexOfStr a ++ "+" ++ hexOfStr b))
+  | .obj kvs => "O:" ++ ",".intercalate (kvs.map (fun (k, v) => hexOfStr k ++ "=" ++ hexOfStr v))
+
+def showParsed (p : List (Str × PV)) : String :=
+  if p.isEmpty then "null" else ";".intercalate (p.map (fun (k, v) => String.ofList k ++ "=" ++ showPV v))
+
+def showRes : Res → String
+  | .ok r => s!"ok rest={showList r.rest} parsed={showParsed r.parsed}"
+  | .error (.noSuch a) => "err:nosuch:" ++ hexOfStr a
+  | .error (.needsArg a) => "err:needsarg:" ++ hexOfStr a
+  | .error (.needsTwo a) => "err:needstwo:" ++ hexOfStr a
+  | .error (.takesNo a) => "err:takesno:" ++ hexOfStr a
+  | .error (.keyValue a) => "err:keyvalue:" ++ hexOfStr a
+  | .error .typeErr => "err:type"
+  | .error .fuel => "err:fuel"
+
+/-! ### header -/
+
+structure Hdr where
+  table : Table
+  codes : Codes
+  otypes : OTypes
+
+def optStr (s : String) : Option (Option Str) := if s == "~" then some none else (strOfHex s).map some
+
+def parseOptEntry (e : String) : Option Opt :=
+  match e.splitOn "|" with
+  | [n, sh, lo, al, kinds] => do
+    let name ← strOfHex n
+    let short ← optStr sh
+    let long ← optStr lo
+    let aliases ← if al == "~" then some [] else (al.splitOn ",").mapM strOfHex
+    if !(kinds.toList.all (fun c => "bsaop?-".toList.contains c)) then none
+    pure { name, short, long, aliases,
+           bool := kinds.contains 'b', string := kinds.contains 's', array := kinds.contains 'a',
+           object := kinds.contains 'o', pairs := kinds.contains 'p', optional := kinds.contains '?' }
+  | _ => none
+
+def kv (ws : List String) (key : String) : Option String :=
+  (ws.find? (·.startsWith (key ++ "="))).map (fun w => (w.drop (key.length + 1)).toString)
+
+def parseHdr (ws : List String) : Except String Hdr :=
+  match kv ws "codes", kv ws "defaults", kv ws "opts", kv ws "otypes" with
+  | some cs, some d, some os, some ots =>
+    match (cs.splitOn ",").mapM String.toNat? with
+    | some [a, i, c, de, e] =>
+      if d != "0" then .error "option table has defaults: not modelled (args.jq:98-104)" else
+      match (os.splitOn ";").mapM parseOptEntry with
+      | some t =>
+        let codes : Codes := { args := a, io := i, compile := c, decode := de, expr := e }
+        -- the hypothesis of Props.C17.exit_combines / exit_is_min: distinct, positive, io < decode < expr
+        if !(0 < i && i < de && de < e && 0 < a && 0 < c) then .error "exit codes violate 0 < io < decode < expr"
+        else
+          match (ots.splitOn ",").mapM (fun e => match e.splitOn ":" with
+              | [k, ty] => (strOfHex k).map (fun k => (k, ty))
+              | _ => none) with
+          | some otypes => .ok { table := t, codes, otypes }
+          | none => .error "otypes"
+      | none => .error "opts"
+    | _ => .error "codes"
+  | _, _, _, _ => .error "hdr fields"
+
+/-! ### run lines -/
+
+def parseFK : String → Option FKind
+  | "j" => some .jobj | "n" => some .jnum | "b" => some .bin | "u" => some .undec
+  | "m" => some .missing | "d" => some .dir | "x" => some .unknown | _ => none
+
+def parsePC : String → Option PClass
+  | "ok" => some .ok | "fnum" => some .fnum | "fall" => some .fall | "nc" => some .nc | "x" => some .unknown | _ => none
+
+def parseFmt : String → Option FmtKind
+  | "p" => some .probe | "f" => some .forced | "-" => some .invalid | _ => none
+
+def parseTok (s : String) : Option Tok :=
+  match s.splitOn ":" with
+  | [n, fk, pc, cc, j, fm] => do
+    let name ← strOfHex n
+    let fk ← parseFK fk
+    let pc ← parsePC pc
+    let cc ← parsePC cc
+    let fmt ← parseFmt fm
+    if j != "0" && j != "1" then none
+    pure { name, fk, pc, cc, jsonOk := j == "1", fmt }
+  | _ => none
+
+structure Obs where
+  exit : Nat
+  len : Nat
+  hash : Nat
+  errs : List String
+deriving Repr
+
+def parseObs (s : String) : Option Obs :=
+  match s.splitOn "/" with
+  | [e, lh, errs] =>
+    match lh.splitOn ":" with
+    | [l, h] => do
+      let exit ← e.toNat?
+      let len ← l.toNat?
+      let hash ← h.toNat?
+      pure { exit, len, hash, errs := if errs == "-" then [] else errs.splitOn "," }
+    | _ => none
+  | _ => none
+
+def hashP : Nat := 2 ^ 61 - 1
+def hashB : Nat := 1000003
+
+def powMod (b e m : Nat) : Nat := Id.run do
+  let mut r := 1
+  let mut b := b % m
+  let mut e := e
+  while e > 0 do
+    if e % 2 == 1 then r := r * b % m
+    b := b * b % m
+    e := e / 2
+  return r
+
+/-- (len, hash) of a concatenation from the parts: H(a ++ b) = H(a)·B^|b| + H(b) (mod P) -/
+def hashConcat (parts : List (Nat × Nat)) : Nat × Nat :=
+  parts.foldl (fun (l, h) (l2, h2) => (l + l2, (h * powMod hashB l2 hashP + h2) % hashP)) (0, 0)
+
+def collapseExpr : List String → List String
+  | "expr" :: "expr" :: rest => collapseExpr ("expr" :: rest)
+  | x :: rest => x :: collapseExpr rest
+  | [] => []
+
+def showELine : ELine → String
+  | .io n => "io:" ++ hexOfStr n
+  | .dec n => "dec:" ++ hexOfStr n
+  | .expr => "expr"
+
+def showErrs (l : List String) : String := if l.isEmpty then "-" else ",".intercalate l
+
+/-- "exit status reflects the failure classes that occurred, 2 over 4 over 5", on the observation alone -/
+def exitReflects (c : Codes) (o : Obs) : Option String :=
+  if o.errs.contains "other" then some "stderr line that is not an error report"
+  else if o.errs.contains "fatal" then
+    if o.exit == c.args || o.exit == c.compile then none else some s!"fatal error but exit {o.exit}"
+  else
+    let io := o.errs.any (·.startsWith "io:")
+    let dec := o.errs.any (·.startsWith "dec:")
+    let ex := o.errs.contains "expr"
+    let want := finallyExit c io dec ex
+    if o.exit == want then none else some s!"exit {o.exit} but the reported failure classes demand {want}"
+
+def runVerdict (h : Hdr) (argv : List Str) (marks : List Bool) (w : World) (all : Obs) (singles : List Obs) : String :=
+  match mainModel h.table h.codes h.otypes w argv with
+  | .error (.mk why) => s!"BADOP unmodelled: {why}"
+  | .ok p =>
+    let modelErrs := if p.fatal then ["fatal"] else collapseExpr (p.errs.map showELine)
+    let modelObs := s!"{p.exit}/{showErrs modelErrs}"
+    let implObs := s!"{all.exit}/{showErrs all.errs}"
+    let marked := (argv.zip marks).filter (·.2) |>.map (·.1)
+    let div :=
+      if modelObs != implObs then s!"DIVERGE model={modelObs}"
+      else if p.defaultMode && p.files != [none] && p.files != marked.map some then "DIVERGE model=file-roles-differ-from-marks"
+      else ""
+    let pf : Option String :=
+      match exitReflects h.codes all with
+      | some why => some why
+      | none =>
+        match singles.findSome? (exitReflects h.codes) with
+        | some why => some ("single run: " ++ why)
+        | none =>
+          -- independence, RELATIVE to the single runs; applies when inputs are fed one by one (model) to a
+          -- compiled program and the marked files are the input files
+          -- a `_fatal_error` halts every run alike before any input is touched: nothing to compose
+          let allHalt := all.errs.contains "fatal" && singles.all (·.errs.contains "fatal")
+          if p.defaultMode && !allHalt && p.files == marked.map some && !marked.isEmpty && singles.length == marked.length then
+            let (l, hs) := hashConcat (singles.map (fun s => (s.len, s.hash)))
+            if all.exit != combineExits h.codes (singles.map (·.exit)) then
+              some s!"exit {all.exit} is not the precedence-max {combineExits h.codes (singles.map (·.exit))} of the single exits"
+            else if collapseExpr (singles.flatMap (·.errs)) != all.errs then some "stderr reports of the joint run are not those of the single runs in order"
+            else if (l, hs) == (all.len, all.hash) then none
+            else some s!"stdout of the joint run ({all.len} bytes) is not the concatenation of the single runs ({l} bytes)"
+          else none
+    match pf with
+    | some why => s!"PROPFAIL {why}" ++ (if div.isEmpty then "" else " ;" ++ div)
+    | none => if div.isEmpty then "OK" else div
+
+def stepRun (h : Hdr) (ws : List String) (obs : String) : String :=
+  match kv ws "argv", kv ws "stdin", kv ws "world" with
+  | some av, some si, some wo =>
+    match parseArgv av, parseFK si, (if wo == "." then some [] else (wo.splitOn ",").mapM parseTok) with
+    | some (argv, marks), some stdin, some toks =>
+      let ows := words obs
+      match kv ows "all", kv ows "singles" with
+      | some a, some s =>
+        match parseObs a, (if s == "." then some [] else (s.splitOn ";").mapM parseObs) with
+        | some all, some singles => runVerdict h argv marks { toks, stdin } all singles
+        | _, _ => "BADOP obs"
+      | _, _ => "BADOP obs fields"
+    | _, _, _ => "BADOP run fields"
+  | _, _, _ => "BADOP run"
+
+/-! ### parse / meta lines -/
+
+def stepParse (h : Hdr) (av : String) (obs : String) : String :=
+  match parseArgv av with
+  | some (argv, _) => verdict (showRes (argsParse h.table argv)) obs
+  | none => "BADOP argv"
+
+/-- split `ok rest=… parsed=…` -/
+def obsParts (o : String) : Option (String × String) :=
+  match words o with
+  | ["ok", r, p] => if r.startsWith "rest=" && p.startsWith "parsed=" then some ((r.drop 5).toString, (p.drop 7).toString) else none
+  | _ => none
+
+def stepMeta (h : Hdr) (kind a b : String) (obs : String) : String :=
+  match parseArgv a, parseArgv b, obs.splitOn " | " with
+  | some (aa, _), some (ab, _), [oa, ob] =>
+    let ma := argsParse h.table aa
+    let mb := argsParse h.table ab
+    let div := if showRes ma != oa then s!" ;DIVERGE model={showRes ma}" else if showRes mb != ob then s!" ;DIVERGE model={showRes mb}" else ""
+    if kind == "same" then
+      -- hypotheses of the theorem: the model itself must equate the two command lines
+      if showRes ma != showRes mb then "BADOP meta pair outside the theorem's hypotheses"
+      else if oa != ob then s!"PROPFAIL the two command lines parse differently{div}"
+      else if div.isEmpty then "OK" else (div.drop 2).toString
+    else if kind.startsWith "dd:" then
+      match (kind.drop 3).toString.toNat?, mb with
+      | some n, .ok _ =>
+        let post := aa.drop (aa.length - n)
+        if aa != ab ++ ("--".toList :: post) then "BADOP dd shape"
+        else match obsParts oa, obsParts ob with
+          | some (ra, pa), some (rb, pb) =>
+            let expectRest := if rb == "." then showList post else if post.isEmpty then rb else rb ++ "," ++ showList post
+            if pa != pb then s!"PROPFAIL `--` changed the parsed options{div}"
+            else if ra != expectRest then s!"PROPFAIL arguments after `--` are not exactly the trailing positionals{div}"
+            else if div.isEmpty then "OK" else (div.drop 2).toString
+          | _, _ => s!"PROPFAIL `--` after a complete command line must not fail{div}"
+      | some _, .error _ =>
+        -- a prefix that already fails: the error is the result, whatever follows
+        if oa != ob then s!"PROPFAIL a failing prefix fails differently when `--` follows{div}"
+        else if div.isEmpty then "OK" else (div.drop 2).toString
+      | _, _ => "BADOP dd"
+    else "BADOP meta kind"
+  | _, _, _ => "BADOP meta"
+
+def stepC17 (st : Option Hdr) (op obs : String) : Option Hdr × String :=
+  match words op with
+  | "hdr" :: ws =>
+    match parseHdr ws with
+    | .ok h => (some h, "OK")
+    | .error e => (none, s!"BADOP header: {e}")
+  | ws =>
+    match st with
+    | none => (none, "BADOP no header line before the first case")
+    | some h =>
+      let ws := ws.filter (fun w => !w.startsWith "@")
+      match ws with
+      | ["parse", av] => (st, stepParse h av obs)
+      | ["meta", kind, a, b] => (st, stepMeta h kind a b obs)
+      | "run" :: rest => (st, stepRun h rest obs)
+      | _ => (st, "BADOP op")
+
+def main : IO Unit := runSt (none : Option Hdr) stepC17
